@@ -707,6 +707,10 @@ func propC10(c *Ctx) {
 				if len(has) == 1 && p.factIs(len(p.Events), p.Events[has[0]].Call.String()+".0", false) && len(sets) != 1 {
 					o.Fail(c.W.Pos(fn.Pos()), "first deposit of a denom succeeds without registering the token pair", c.Dump(p, -1))
 				}
+				// every accepted deposit - of any amount, zero included - leaves its pair registered
+				if len(has) != 1 || strip(p.Events[has[0]].Call.Args[2]).Key() != wantKey {
+					o.Fail(c.W.Pos(fn.Pos()), fmt.Sprintf("a deposit succeeds with %d existence probes of its own token pair (want exactly 1): the announced L2 denom may stay unregistered", len(has)), c.Dump(p, -1))
+				}
 			}
 		}
 		if o.Sites == 0 {
@@ -789,8 +793,8 @@ func propC11(c *Ctx) {
 				for f, w := range map[string]string{
 					"OutputRoot":    "req.OutputRoot",
 					"L2BlockNumber": "req.L2BlockNumber",
-					"L1BlockTime":   "(sdk.Context).BlockTime(sdk.UnwrapSDKContext(ctx))",
-					"L1BlockNumber": "(sdk.Context).BlockHeight(sdk.UnwrapSDKContext(ctx))",
+					"L1BlockTime":   "(sdk.Context).BlockTime(ctx)",
+					"L1BlockNumber": "(sdk.Context).BlockHeight(ctx)",
 				} {
 					if got := strip(project(v, f, nil)).Key(); got != w {
 						o.Fail(where, "stored "+f+" is "+trunc(got, 120)+", want "+w, c.Dump(p, i))
